@@ -23,6 +23,9 @@ func (w *World) transcriptStep(op Op, ar ApplyResult, full *strings.Builder, red
 		}
 	}
 	emit(true, "## %s -> %s\n", op, errClass(ar.Err))
+	if ar.Extra != "" {
+		emit(true, "batch-get %s\n", ar.Extra)
+	}
 	if w.Dead || w.DB == nil {
 		return
 	}
@@ -239,6 +242,7 @@ func c14Alphabet(c Cfg) []Op {
 		{p("a", 0), d("a"), p("a", 0)},
 		{p("a", 39), p("b", 39), d("a")},
 		{d("b"), p("a", 0), p("a", 0)},
+		{d("a"), p("a", 0)}, // a tombstone staged for an existing key, turned back into a put
 	} {
 		a = append(a, Op{K: "batch", Sub: body, Dev: true})
 	}
